@@ -1401,3 +1401,39 @@ mutant("cfg1-unknown-default-falls-back", "C20", SOLVER, """    backend_name = c
 """, "CFG-1")
 # round 12 and the --ops 2 sweep of array.py
 mutant("opc6a-elements-built-as-boolexpr", "C12", ARRAY, "        if bool_op:\n            res.append(BoolExpr(op, expr_operands))", "        if True:\n            res.append(BoolExpr(op, expr_operands))", "OPC-6A")
+
+# ---- round 13 instance families ------------------------------------------------------------------
+mutant("slc-int2d-scalar-fast-path-flat-negative", "C13", ARRAY, """    ) -> Union[IntExpr, IntArray1D, "IntArray2D"]:
+        ret = super()._getitem_impl(key)""", """    ) -> Union[IntExpr, IntArray1D, "IntArray2D"]:
+        if isinstance(key, tuple) and isinstance(key[0], int) and isinstance(key[1], int):
+            height, width = self.shape
+            if 0 <= key[0] < height and -width <= key[1] < width:
+                return self.data[key[0] * width + key[1]]
+        ret = super()._getitem_impl(key)""", "SLC-G")
+variant("slc-int2d-scalar-fast-path-in-range", "C13", ARRAY, """    ) -> Union[IntExpr, IntArray1D, "IntArray2D"]:
+        ret = super()._getitem_impl(key)""", """    ) -> Union[IntExpr, IntArray1D, "IntArray2D"]:
+        if isinstance(key, tuple) and isinstance(key[0], int) and isinstance(key[1], int):
+            height, width = self.shape
+            if 0 <= key[0] < height and 0 <= key[1] < width:
+                return self.data[key[0] * width + key[1]]
+        ret = super()._getitem_impl(key)""")
+mutant("seg-initial-one-sided-bounds", "C18", GSEG, """            is_met = True
+            if not (self.min_num_blocks <= len(blocks) <= self.max_num_blocks):
+                is_met = False
+            for block in blocks:
+                if not (self.min_block_size <= len(block) <= self.max_block_size):
+                    is_met = False
+            if is_met:""", """            if len(blocks) >= self.min_num_blocks and all(
+                len(block) <= self.max_block_size for block in blocks
+            ):""", "SEG-E")
+mutant("pzx-fillomino-checkered-horizontal-one-way", "C11", PZ + "fillomino.py", "solver.ensure(border.horizontal == (color[:-1, :] != color[1:, :]))", "solver.ensure(border.horizontal.then(color[:-1, :] != color[1:, :]))", "PZ-X")
+mutant("vid-answer-key-array-run-of-ids", ["C01", "C02"], SOLVER, "        for x in flatten_iterator(*variable):", """        rest = []
+        for arg in variable:
+            if isinstance(arg, (BoolArray1D, BoolArray2D, IntArray1D, IntArray2D)) and arg.data and all(
+                isinstance(v, (BoolVar, IntVar)) for v in arg.data
+            ):
+                for i in range(arg.data[0].id, arg.data[0].id + len(arg.data)):
+                    self.is_answer_key[i] = True
+                continue
+            rest.append(arg)
+        for x in flatten_iterator(*rest):""", "VID-5")
